@@ -259,6 +259,31 @@ impl Drop for Db {
     }
 }
 
+thread_local! {
+    static SCRATCH: Db = Db::memory();
+}
+
+/// Run `f` on a per-thread scratch connection inside a transaction that is always rolled back:
+/// every case starts from an empty database without paying for a new connection.
+pub fn scratch<T>(f: impl FnOnce(&Db) -> T) -> T {
+    SCRATCH.with(|db| {
+        let _ = db.exec("BEGIN");
+        let r = f(db);
+        let _ = db.exec("ROLLBACK");
+        r
+    })
+}
+
+impl Db {
+    /// run `f` inside a transaction on this connection and roll it back afterwards
+    pub fn rolled_back<T>(&self, f: impl FnOnce(&Db) -> T) -> T {
+        let _ = self.exec("BEGIN");
+        let r = f(self);
+        let _ = self.exec("ROLLBACK");
+        r
+    }
+}
+
 /// rows as a sorted multiset
 pub fn sorted(mut rows: Vec<Row>) -> Vec<Row> {
     rows.sort_by_key(|r| r.iter().map(|c| c.key()).collect::<Vec<_>>());
